@@ -292,6 +292,9 @@ func Gen(cfg Config) func(t *rapid.T) Script {
 				if rapid.IntRange(0, 3).Draw(t, "withPrereqs") > 0 && op.R < nv {
 					prereq(op.R, op.M, 0)
 				}
+				if cfg.Retype && s.U.Manifests[op.M].Kind == "opaque" && rapid.IntRange(0, 2).Draw(t, "retypePush") == 0 {
+					op.Mode = 1
+				}
 				op.T = -1
 				if rapid.IntRange(0, 2).Draw(t, "tagged") > 0 {
 					op.T = rapid.IntRange(0, ntag-1).Draw(t, "tag")
